@@ -43,6 +43,8 @@ struct Cfg {
   std::string prop;
   bool lazy = false;             // per-op dumps are tree-only (lazy caches stay stale between ops)
   int battery_every = 0;
+  bool libxml_import = false, libxml_export = false;   // process class
+  bool ud_markup = false;                               // plain userdata may contain < and & (known finding with nolibxml export)
   bool is(const char *p) const { return prop == p; }
 };
 
